@@ -61,9 +61,15 @@ def gen_case(rng):
         ie, isz = gen_entries(rng)
         oe, osz = gen_entries(rng)
         nch = rng.choice([1, 1, 2])
+        kwform = False
+        if nch == 2 and rng.random() < 0.5:
+            # both directions with the same channel stride: the channel is
+            # declared as Ch(offset, coe=...) and the output offset defaults
+            isz = osz = max(isz, osz)
+            kwform = True
         terms.append(dict(pos=4 + i, ins=ie, outs=oe, isz=isz * nch,
                           osz=osz * nch, stride_in=isz, stride_out=osz,
-                          nch=nch, fmmu=rng.random() < 0.5))
+                          nch=nch, fmmu=rng.random() < 0.5, kwform=kwform))
     links = []
     for _ in range(rng.randint(2, 8)):
         ti = rng.randrange(nt)
@@ -108,8 +114,11 @@ def build(case, ec):
                     sm, byte, bit if f == "bit" else f)
         Ch = type("Ch", (Struct,), cns)
         for c in range(d["nch"]):
-            ns[f"ch{c}"] = Ch(d["stride_in"] * c, d["stride_out"] * c,
-                              0x100 * c)
+            if d.get("kwform"):
+                ns[f"ch{c}"] = Ch(d["stride_in"] * c, coe=0x100 * c)
+            else:
+                ns[f"ch{c}"] = Ch(d["stride_in"] * c, d["stride_out"] * c,
+                                  0x100 * c)
         T = type("VfT", (EBPFTerminal,), ns)
         t = T(ec)
         t.position = d["pos"]
